@@ -110,6 +110,12 @@ func evalConst(e ast.Expr) (constant.Value, bool) {
 		return v, ok
 	case *ast.ParenExpr:
 		return evalConst(x.X)
+	case *ast.SelectorExpr:
+		if id, ok := x.X.(*ast.Ident); ok && id.Name == "time" {
+			if ns, ok := map[string]int64{"Nanosecond": 1, "Microsecond": 1e3, "Millisecond": 1e6, "Second": 1e9, "Minute": 60e9, "Hour": 3600e9}[x.Sel.Name]; ok {
+				return constant.MakeInt64(ns), true
+			}
+		}
 	case *ast.BinaryExpr:
 		a, ok1 := evalConst(x.X)
 		b, ok2 := evalConst(x.Y)
